@@ -19,7 +19,9 @@ RULE = ("case = generated 3D plotfile (nested partially refined levels, boxes sc
         "schedules: the FIFO one-worker run, then for EACH per-level imap_unordered call with <= 4 file tasks ALL "
         "feasible completion orders for W in {1,2,n,16} (the other calls FIFO), plus drawn random schedules; oracle: "
         "the saved .npy has the requested dtype and is bit-equal to the model's covering grid at the limit level "
-        "(coarser cells replicated) cast to that dtype, axes (x,y,z), in every schedule. non-trivial = some level has "
+        "(coarser cells replicated) cast to that dtype, axes (x,y,z), in every schedule; fault arm (a sixth of the cases, "
+        "after the fault-free runs): the first open of one binary file of a selected level fails once with EIO - whip "
+        "may give up, a grid it saves must still be the covering grid. non-trivial = some level has "
         ">= 2 binary files (>= 2 unordered tasks) or >= 2 levels are selected; distinct = hash(world, field, dtype, "
         "limit, schedules)")
 ASSUMPTIONS = ["independent model is the oracle", "the default output name is C13's business (explicit -o here)"]
